@@ -66,8 +66,17 @@ func TestC06(t *testing.T) {
 		}
 		syncs := 0
 		t.Repeat(map[string]func(*rapid.T){
-			"txn":        func(t *rapid.T) { mc.ActTxn(t, cfg); sync(t) },
-			"txn2":       func(t *rapid.T) { mc.ActTxn(t, cfg); sync(t) },
+			"txn": func(t *rapid.T) {
+				mc.ActTxn(t, cfg)
+				mc.CheckIndexes(t, mc.C, "primary after a transaction", nil)
+				sync(t)
+			},
+			"txn2": func(t *rapid.T) {
+				mc.ActTxn(t, cfg)
+				mc.CheckIndexes(t, mc.C, "primary after a transaction", nil)
+				sync(t)
+				mc.CheckIndexes(t, replica, "replica after replaying a transaction", nil)
+			},
 			"prefill":    func(t *rapid.T) { mc.prefillAction(t); sync(t) },
 			"bulkDelete": func(t *rapid.T) { mc.ActBulkDelete(t); sync(t) },
 			"lateColumn": func(t *rapid.T) {
